@@ -41,7 +41,9 @@ pub fn main_entry(hooks: bool) {
     std::env::set_var("RUST_LIB_BACKTRACE", "0");
     let args: Vec<String> = std::env::args().skip(1).collect();
     if args.is_empty() {
-        machinery("usage: mc check <ID> [--tier quick|thorough] | mc replay <file> | mc conformance");
+        machinery(
+            "usage: mc check <ID> [--tier quick|thorough] | mc replay <file> | mc conformance",
+        );
     }
     run::install_quiet_panic_hook();
     let _ = hooks;
@@ -53,7 +55,13 @@ pub fn main_entry(hooks: bool) {
         "observe" => checks::c06::observe_main(),
         "roundtrip-tier" => match checks::c01::roundtrip_tier() {
             Ok(st) => {
-                println!("{} modules, {} decodes, {} violation signatures, {:.1}s", st.states, st.executed, st.violations.len(), st.wall_s);
+                println!(
+                    "{} modules, {} decodes, {} violation signatures, {:.1}s",
+                    st.states,
+                    st.executed,
+                    st.violations.len(),
+                    st.wall_s
+                );
                 for v in st.violations {
                     println!("{}\n   {}", v.sig, &v.detail[..v.detail.len().min(900)]);
                 }
@@ -62,7 +70,13 @@ pub fn main_entry(hooks: bool) {
         },
         "c18-tier" => match checks::c18::roundtrip_tier() {
             Ok(st) => {
-                println!("{} modules, {} decodes, {} violation signatures, {:.1}s", st.states, st.executed, st.violations.len(), st.wall_s);
+                println!(
+                    "{} modules, {} decodes, {} violation signatures, {:.1}s",
+                    st.states,
+                    st.executed,
+                    st.violations.len(),
+                    st.wall_s
+                );
                 for v in st.violations {
                     println!("{}\n   {}", v.sig, &v.detail[..v.detail.len().min(900)]);
                 }
@@ -71,7 +85,12 @@ pub fn main_entry(hooks: bool) {
         },
         "compile-tier" => match checks::c02::compile_tier(0, false) {
             Ok(st) => {
-                println!("{} modules, {} violation signatures, {:.1}s", st.states, st.violations.len(), st.wall_s);
+                println!(
+                    "{} modules, {} violation signatures, {:.1}s",
+                    st.states,
+                    st.violations.len(),
+                    st.wall_s
+                );
                 for v in st.violations {
                     println!("{}\n   {}", v.sig, &v.detail[..v.detail.len().min(700)]);
                 }
@@ -85,15 +104,28 @@ pub fn main_entry(hooks: bool) {
         "gen-src" => {
             // debugging aid: `mc gen-src <file.rs> [--dedup]`: Rust definitions (the syntax of the conformance
             // corpus, with a `roots!(A, B<u8>);` line) -> SPM -> registry -> generated module
-            let src = std::fs::read_to_string(args.get(1).map(|s| s.as_str()).unwrap_or("")).unwrap_or_else(|e| machinery(&format!("read: {e}")));
+            let src = std::fs::read_to_string(args.get(1).map(|s| s.as_str()).unwrap_or(""))
+                .unwrap_or_else(|e| machinery(&format!("read: {e}")));
             let (mut prog, roots) = corpus::parse_corpus(&src, &["k"]);
             prog.roots = roots.into_iter().map(|r| r.1).collect();
             let mut reg = spm::elaborate(&prog).registry;
             if args.iter().any(|a| a == "--dedup") {
-                println!("dedup: {:?}", scale_typegen::utils::ensure_unique_type_paths(&mut reg).map_err(|e| e.to_string()));
+                println!(
+                    "dedup: {:?}",
+                    scale_typegen::utils::ensure_unique_type_paths(&mut reg)
+                        .map_err(|e| e.to_string())
+                );
             }
             for t in &reg.types {
-                println!("// {} {} {:?}", t.id, t.ty.path.segments.join("::"), t.ty.type_params.iter().map(|p| (p.name.clone(), p.ty.map(|x| x.id))).collect::<Vec<_>>());
+                println!(
+                    "// {} {} {:?}",
+                    t.id,
+                    t.ty.path.segments.join("::"),
+                    t.ty.type_params
+                        .iter()
+                        .map(|p| (p.name.clone(), p.ty.map(|x| x.id)))
+                        .collect::<Vec<_>>()
+                );
             }
             let spec = settings::SettingsSpec::faithful();
             match run::generate(&reg, &spec.build()) {
@@ -101,18 +133,45 @@ pub fn main_entry(hooks: bool) {
                 other => println!("{other:?}"),
             }
             for id in 0..reg.types.len() as u32 {
-                println!("// description {id}: {:?}", run::guarded(|| scale_typegen_description::type_description(id, &reg, false).map_err(|e| e.to_string())));
-                println!("// rust value {id}: {:?}", run::guarded(|| scale_typegen_description::rust_value_from_seed(id, &reg, &spec.build(), 1, None, None).map(|t| t.to_string()).map_err(|e| e.to_string())));
+                println!(
+                    "// description {id}: {:?}",
+                    run::guarded(
+                        || scale_typegen_description::type_description(id, &reg, false)
+                            .map_err(|e| e.to_string())
+                    )
+                );
+                println!(
+                    "// rust value {id}: {:?}",
+                    run::guarded(|| scale_typegen_description::rust_value_from_seed(
+                        id,
+                        &reg,
+                        &spec.build(),
+                        1,
+                        None,
+                        None
+                    )
+                    .map(|t| t.to_string())
+                    .map_err(|e| e.to_string()))
+                );
             }
         }
         "gen-polkadot" => {
             // debugging aid: hash of de-duplicated + generated Polkadot module
             let mut r = run::polkadot_registry();
             scale_typegen::utils::ensure_unique_type_paths(&mut r).unwrap();
-            let paths: Vec<String> = r.types.iter().map(|t| t.ty.path.segments.join("::")).collect();
+            let paths: Vec<String> = r
+                .types
+                .iter()
+                .map(|t| t.ty.path.segments.join("::"))
+                .collect();
             let spec = settings::SettingsSpec::faithful();
             match run::generate(&r, &spec.build()) {
-                run::GenOutcome::Ok { tokens } => println!("tokens {} hash {:016x} paths {:016x}", tokens.len(), engine::hash64(&tokens), engine::hash64(&paths)),
+                run::GenOutcome::Ok { tokens } => println!(
+                    "tokens {} hash {:016x} paths {:016x}",
+                    tokens.len(),
+                    engine::hash64(&tokens),
+                    engine::hash64(&paths)
+                ),
                 other => println!("{other:?}"),
             }
         }
@@ -128,12 +187,15 @@ pub fn main_entry(hooks: bool) {
             // (the checks that are about termination additionally pin the state with worker
             // subprocesses).
             if std::env::var("VERIF_INNER").is_err() {
-                let exe = std::env::current_exe().unwrap_or_else(|e| machinery(&format!("current exe: {e}")));
+                let exe = std::env::current_exe()
+                    .unwrap_or_else(|e| machinery(&format!("current exe: {e}")));
                 let status = std::process::Command::new(exe)
                     .args(&args)
                     .env("VERIF_INNER", "1")
                     .status()
-                    .unwrap_or_else(|e| machinery(&format!("cannot start the exploration process: {e}")));
+                    .unwrap_or_else(|e| {
+                        machinery(&format!("cannot start the exploration process: {e}"))
+                    });
                 match status.code() {
                     // 101 = an uncaught panic: every call into the code under test is caught, so this is a bug of
                     // the machinery, never a verdict
@@ -161,16 +223,20 @@ pub fn main_entry(hooks: bool) {
                     }
                 }
             }
-            let code = checks::run_check(&id, &tier, seed).unwrap_or_else(|| machinery(&format!("unknown property {id}")));
+            let code = checks::run_check(&id, &tier, seed)
+                .unwrap_or_else(|| machinery(&format!("unknown property {id}")));
             std::process::exit(code)
         }
         "replay" => {
             let path = args.get(1).cloned().unwrap_or_default();
-            let text = std::fs::read_to_string(&path).unwrap_or_else(|e| machinery(&format!("{path}: {e}")));
-            let v: Value = serde_json::from_str(&text).unwrap_or_else(|e| machinery(&format!("{path}: {e}")));
+            let text = std::fs::read_to_string(&path)
+                .unwrap_or_else(|e| machinery(&format!("{path}: {e}")));
+            let v: Value =
+                serde_json::from_str(&text).unwrap_or_else(|e| machinery(&format!("{path}: {e}")));
             let prop = v["property"].as_str().unwrap_or("").to_string();
             let replay = &v["replay"];
-            let sigs = |v: &Vec<engine::Violation>| v.iter().map(|x| x.sig.clone()).collect::<Vec<_>>();
+            let sigs =
+                |v: &Vec<engine::Violation>| v.iter().map(|x| x.sig.clone()).collect::<Vec<_>>();
             let vs = checks::replay(replay).unwrap_or_else(|e| machinery(&e));
             let again = checks::replay(replay).unwrap_or_else(|e| machinery(&e));
             if sigs(&vs) != sigs(&again) {
